@@ -274,8 +274,13 @@ def L_INH(cs=None):
         step('ex', 'exist', requires=[fld('os')], reaches=[astep('tG1')]),
         step('nex', 'notExist', requires=[fld('os1')], reaches=[astep('tG1')]),
         step('dP', 'defense', reaches=[astep('tG1')], ttc=ENABLED, overrides=False),
+        # '->' redefinitions that differ from the inherited declaration in type, TTC, tags and meta
+        step('timed', 'or', reaches=[astep('tG1')], ttc=None, tags=['z'], meta=MITRE),
     ])
-    G2 = asset('G2', sup='Am', steps=s_decl(3))
+    G2 = asset('G2', sup='Am', steps=s_decl(3) + [
+        step('timed', 'and', reaches=[astep('tG2')], ttc=ENABLED, tags=[]),
+        step('gex', 'exist', requires=[fld('os2')], reaches=[astep('tG2')]),
+    ])
     O = asset('O', steps=[step('tO', 'or'), step('back', 'or', reaches=[to(fld('ps'), 'tP')]),
                           step('exO', 'exist', requires=[sub('G1', fld('ps'))])], category='C2')
     assocs = [assoc('L', 'P', 'ps', MANY, 'O', 'os', MANY),
@@ -339,6 +344,14 @@ def L_UNI():
     ])
     return spec([B, B1, B2, S], [assoc('A1', 'S', 's1', MANY, 'B1', 'x1', MANY), assoc('A2', 'S', 's2', MANY, 'B2', 'x2', MANY),
                                   assoc('AB', 'S', 'sb', MANY, 'B', 'xb', MANY)], lang_id='verif.luni')
+
+
+def L_SYM():
+    R = asset('R', steps=[step('t', 'or'), step('hop', 'or', reaches=[to(fld('nb'), 't')])])
+    R2 = asset('R2', sup='R', steps=[])
+    W = asset('W', steps=[step('t', 'or'), step('hop', 'or', reaches=[to(fld('nb'), 't')])])
+    X = asset('X', steps=[step('t', 'or')])
+    return spec([R, R2, W, X], [assoc('Link', 'R', 'nb', MANY, 'W', 'nb', MANY), assoc('Up', 'W', 'ws', MANY, 'X', 'xs', (0, 1))], lang_id='verif.lsym')
 
 
 ILL = ['unknown super asset', 'unknown association end (left)', 'unknown association end (right)',
